@@ -103,6 +103,8 @@ def inlinable(h: ast.AST) -> bool:
     a = h.args
     if a.vararg or a.kwarg or a.posonlyargs:
         return False
+    if any(not (isinstance(d, ast.Name) and d.id in ("staticmethod", "classmethod")) for d in h.decorator_list):
+        return False  # a decorator (cache, property, click command ...) changes what a call does: never read through it
     if any(isinstance(n, (ast.Yield, ast.YieldFrom, ast.Await, ast.Global, ast.Nonlocal)) for n in walk_no_nested(h)):
         return False
     if any(isinstance(n, (ast.FunctionDef, ast.AsyncFunctionDef, ast.ClassDef)) for n in ast.walk(h) if n is not h):
